@@ -225,8 +225,8 @@ struct Dim {
         const auto u = H::findSingleEigenValue(h.vp);
         if (u != 3) {
           const auto i = (u == 2) ? 0 : 2;
-          const auto idvp = 1 / (h.vp[i] - h.vp[u]);
-          return ((h.e[i] - h.e[u]) * idvp - d[u]) * idvp;
+          const auto idvp = 1 / (h.vp[u] - h.vp[i]);
+          return ((h.e[u] - h.e[i]) * idvp - d[i]) * idvp;
         }
         auto r = real{};
         for (size_type i = 0; i != 3; ++i) {
